@@ -339,7 +339,7 @@ def main(argv=None):
                 for v in b.get('violations', [])[:5]:
                     print('bounded stand-in failure: %s' % json.dumps(v)[:500])
                 print('VIOLATION property=%s replay=%s' % (prop, b['report']))
-                if exit_code in (0, 2): exit_code = 1
+                exit_code = 1          # a concrete failing input on the real code is definitive, whatever else was undecided
             elif b.get('exit') not in (0, 1):
                 print('BOUNDED stand-in %s did not run: %s' % (b['script'], str(b.get('error'))[:500]))
                 if exit_code == 0: exit_code = 3
